@@ -608,10 +608,13 @@ def keycase(kc):
             name = f'internal{i}'
         elif alias == 'same':
             name = 'v'
+        if kc.get('ts'):
+            return FEMAttribute(name, np.array([1000 + 2 * i]), np.array([[[2 * i + 1]], [[2 * i + 1]]]),
+                                silent=True, time_series=True)
         return FEMAttribute(name, np.array([1000 + 2 * i]), np.array([[2 * i + 1]]), silent=True)
 
     def dec_attr(a):
-        return [int(np.ravel(a.ids)[0]) - 1000, int(np.ravel(a.data)[0])]
+        return [int(np.ravel(a.ids)[0]) - 1000, int(np.ravel(a.data)[0]), bool(a.time_series)]
 
     def dec_elem(e):
         return [[str(t), dec_attr(a)] for t, a in e.items()]
